@@ -131,7 +131,11 @@ func render8(items []qItem, st int, a *addrs) []string {
 			}
 			b.WriteString("</" + local + ">")
 		case "ws":
-			b.WriteString("\n  ")
+			b.WriteString(" \t\r\n ")
+		case "utext": // Unicode spaces that are not XML white space (XML 1.0 production S is #x20 | #x9 | #xD | #xA only)
+			b.WriteString("\u00a0\u2003\u2028\u3000\u0085")
+		case "mtext":
+			b.WriteString(" \n\u00a0\t \u2003\n")
 		case "lclose":
 			chunks = append(chunks, b.String())
 			b.Reset()
@@ -324,11 +328,14 @@ func readMain(args []string) {
 						default:
 							o.Ev = append(o.Ev, []string{"nil,nil"})
 						}
-						if tok == nil && err != nil && err != io.EOF && p.Mode == "stop" {
+						if tok == nil && err != nil && err != io.EOF && (p.Mode == "stop" || p.Mode == "stopeof") {
 							break
 						}
 					}
 					log = append(log, o)
+					if p.Mode == "stopeof" {
+						return io.EOF // "I am at the end of what I read" - says nothing about the stream
+					}
 					return nil
 				})
 				res := serveSession(v.Sess, v.Local, v.Was, render, h)
